@@ -1,5 +1,6 @@
-(* Extraction of the executable model (trusted base: Extraction, ExtrOcamlBasic, ExtrOcamlNatInt:
-   nat -> OCaml int for sizes/ids/capacities only; bytes stay Coq N). *)
+(* Extraction of the three executable models into ONE OCaml file (all identifiers of AllocBase/Aligned/Std are distinct from
+   those of MemPool). Trusted base: Extraction, ExtrOcamlBasic, ExtrOcamlNatInt: nat -> OCaml int for sizes/ids/capacities
+   only; bytes stay Coq N. *)
 From Coq Require Import Extraction ExtrOcamlBasic ExtrOcamlNatInt.
-From MemPoolC Require Import MemPool.
-Extraction "mmodel.ml" init step lookup.
+From MemPoolC Require Import MemPool AllocBase Aligned Std.
+Extraction "mmodel.ml" init step lookup ainit astep sinit sstep hlookup sdata aidx bsize.
